@@ -29,6 +29,45 @@ def _sym_of_operand(fn, env, op):
     return None
 
 
+def _cmp_var(fn, bb, t):
+    """name of the user variable compared with a constant by the Eq/Ne that feeds the switch terminating bb (None if not that shape)"""
+    d = t["discr"]
+    if d["k"] == "const" or d["place"]["p"]:
+        return None
+    dl = d["place"]["l"]
+    for s in reversed(fn.blocks[bb]["stmts"]):
+        if s["k"] == "assign" and s["place"]["l"] == dl and not s["place"]["p"]:
+            rv = s["rv"]
+            if rv["k"] == "binop" and rv["op"] in ("Eq", "Ne"):
+                for o in (rv["a"], rv["b"]):
+                    if o["k"] != "const" and not o["place"]["p"]:
+                        l = o["place"]["l"]
+                        nm = fn.locals[l].get("name")
+                        if not nm:
+                            # a temporary holding a copy of the variable
+                            for s2 in reversed(fn.blocks[bb]["stmts"]):
+                                if s2["k"] == "assign" and s2["place"]["l"] == l and not s2["place"]["p"] and s2["rv"]["k"] == "use" and \
+                                        s2["rv"]["op"]["k"] != "const" and not s2["rv"]["op"]["place"]["p"]:
+                                    nm = fn.locals[s2["rv"]["op"]["place"]["l"]].get("name")
+                                    break
+                        if nm:
+                            return nm
+            return None
+    return None
+
+
+def _variant_of(v):
+    """variant name of a path-local value known to be a freshly built enum value: 'Ok' / 'Err' / 'Some' / 'None' / 'Continue' / ..."""
+    if v is None or v[0] != "val":
+        return None
+    e = v[1]
+    if e[0] == "agg" and isinstance(e[1], str) and e[1].startswith("adt:"):
+        return e[1][4:]
+    if e[0] == "errprop":
+        return "Err"
+    return None
+
+
 def paths(fn, max_paths=4000, max_loop=1):
     ex = Ex(fn)
     out = []
@@ -78,6 +117,13 @@ def paths(fn, max_paths=4000, max_loop=1):
                 val = ("expr", show(norm(ex.rvalue(rv, (bb, si)))))
                 if rv.get("vars"):
                     discr_vals[val[1]] = sorted(int(v) for v, _ in rv["vars"])
+                    # the variant is known on this path (value built / propagated on this very path, e.g. after inlining a helper)
+                    pl_ = rv.get("place")
+                    if pl_ is not None and not pl_["p"]:
+                        vr = _variant_of(env.get(pl_["l"]))
+                        hit = [int(v) for v, n in rv["vars"] if n == vr]
+                        if vr is not None and len(hit) == 1:
+                            val = ("const", hit[0])
             elif rv["k"] in ("binop", "cast"):
                 val = ("expr", show(norm(ex.rvalue(rv, (bb, si)))))
             elif rv["k"] == "agg":
@@ -117,6 +163,14 @@ def paths(fn, max_paths=4000, max_loop=1):
             effects = effects + [(bb, callee, args, to_ret, callx)]
             if not t["dest"]["p"]:
                 env[t["dest"]["l"]] = ("expr", show(callx))
+                if callee.endswith("FromResidual::from_residual"):
+                    env[t["dest"]["l"]] = ("val", callx)
+                elif callee.endswith("Try::branch") and t["args"] and t["args"][0]["k"] != "const" and not t["args"][0]["place"]["p"]:
+                    vr = _variant_of(env.get(t["args"][0]["place"]["l"]))
+                    if vr in ("Ok", "Some"):
+                        env[t["dest"]["l"]] = ("val", ("agg", "adt:Continue", "std::ops::ControlFlow", (("0", ("ok", args[0])),)))
+                    elif vr in ("Err", "None"):
+                        env[t["dest"]["l"]] = ("val", ("agg", "adt:Break", "std::ops::ControlFlow", (("0", ("residual", args[0])),)))
                 if to_ret:
                     lastret = None
             if t.get("target") is None:
@@ -155,7 +209,13 @@ def paths(fn, max_paths=4000, max_loop=1):
                 if d_ is not None and d_[0] == "bin" and d_[1] in ("Eq", "Ne"):
                     for x_, c_ in ((d_[2], d_[3]), (d_[3], d_[2])):
                         if c_[0] == "const" and isinstance(c_[2], int) and x_[0] != "const":
-                            cmp_const = (show(x_), c_[2], d_[1])
+                            nm_ = show(x_)
+                            if x_[0] == "phi":
+                                # a loop-carried user variable: name the atom after the variable, not after its (unreadable) phi web
+                                vn_ = _cmp_var(fn, bb, t)
+                                if vn_:
+                                    nm_ = "var:" + vn_
+                            cmp_const = (nm_, c_[2], d_[1])
                             break
             # previous decision on the same atom?
             last_iter = max([i for i, (a, v) in enumerate(decisions) if a == "#iter"] + [-1])
